@@ -67,6 +67,7 @@ Nd == INSTANCE NdIndex
 
 CONSTANTS Layouts,     \* sequence of layout records (VectorMC)
           Depth,       \* bound on the length of a history
+          DepthC,      \* the same for vectors that are allocated complex
           Record       \* TRUE: the history carries the observables after every action (export); FALSE: only the actions
 
 Kinds == {"nl_out", "nl_res", "ln_out", "ln_res"}
@@ -152,8 +153,9 @@ VARIABLES ly, kind,     \* layout index, vector kind (fixed along a behaviour)
           y, yi,        \* the storage of the second vector (never written)
           cs,           \* complex-step mode (of both vectors: a System switches all its vectors together)
           st,           \* "phys", "norm_fwd" or "norm_rev"
+          fam,          \* the alphabet the history is drawn from (fixed along a behaviour): "all", "solver", "cs"/"cs2"
           hist
-vars == <<ly, kind, alloc, x, xi, y, yi, cs, st, hist>>
+vars == <<ly, kind, alloc, x, xi, y, yi, cs, st, fam, hist>>
 
 L == Layouts[ly]
 ZeroV == TLCEval(Fill(Len(x), Zero))
@@ -186,15 +188,16 @@ Init == /\ ly \in 1..Len(Layouts) /\ kind \in Kinds /\ alloc \in BOOLEAN
         /\ yi = TLCEval(IF alloc THEN YI0(N(Layouts[ly])) ELSE Fill(N(Layouts[ly]), Zero))
         /\ cs \in (IF alloc THEN BOOLEAN ELSE {FALSE})
         /\ st = "phys" /\ hist = <<>>
-InitCS == Init /\ alloc
-InitReal == Init /\ ~alloc
+        /\ fam \in {"all", "solver", "cs", "cs2"}
+        /\ (fam \in {"cs", "cs2"} => alloc) /\ (fam = "solver" => ~cs)
+InitAll == Init /\ fam = "all"
 
-Bound == Len(hist) < Depth
+Bound == Len(hist) < (IF alloc THEN DepthC ELSE Depth)
 \* (TLCEval: the planes are evaluated once, not element by element every time a later expression looks at them)
 Step(a, nx, nxi) == LET ex == TLCEval(nx)
                         exi == TLCEval(nxi)
                     IN /\ x' = ex /\ xi' = exi /\ hist' = Append(hist, Obs(a, ex, exi, cs))
-                       /\ UNCHANGED <<ly, kind, alloc, y, yi, cs, st>>
+                       /\ UNCHANGED <<ly, kind, alloc, y, yi, cs, st, fam>>
 \* SET: NumPy assignment on the storage - w is the complex array the storage becomes
 StepSet(a, w) == LET ew == TLCEval(w) IN Step(a, ew[1], ew[2])
 \* ARITHMETIC: NumPy in-place operation on the visible array - w is the complex array the visible array becomes; out of
@@ -239,7 +242,7 @@ CsSwitch(on) ==
     /\ Bound /\ alloc /\ cs # on
     /\ cs' = on
     /\ hist' = Append(hist, Obs([n |-> "cs_mode", on |-> on], x, xi, on))
-    /\ UNCHANGED <<ly, kind, alloc, x, xi, y, yi, st>>
+    /\ UNCHANGED <<ly, kind, alloc, x, xi, y, yi, st, fam>>
 
 NVars == 3          \* every layout has three variables
 FlatIdx == {Nd!IntT(0), Nd!IntT(-1), Nd!SliceT(1, 3, Nd!NoneV), Nd!SliceT(Nd!NoneV, Nd!NoneV, 2), Nd!ArrT(<<2, 0>>)}
@@ -278,67 +281,75 @@ ScaleToNorm(mode) ==
     /\ x' = TLCEval(ToNorm(L, kind, mode, x))
     /\ xi' = IF cs THEN TLCEval(ToNormI(L, kind, mode, xi)) ELSE xi
     /\ hist' = Append(hist, Obs([n |-> "scale_to_norm", mode |-> mode], x', xi', cs))
-    /\ UNCHANGED <<ly, kind, alloc, y, yi, cs>>
+    /\ UNCHANGED <<ly, kind, alloc, y, yi, cs, fam>>
 ScaleToPhys ==
     /\ Bound /\ TameC(Sto) /\ st # "phys"
     /\ st' = "phys"
     /\ x' = TLCEval(ToPhys(L, kind, StMode, x))
     /\ xi' = IF cs THEN TLCEval(ToPhysI(L, kind, StMode, xi)) ELSE xi
     /\ hist' = Append(hist, Obs([n |-> "scale_to_phys", mode |-> StMode], x', xi', cs))
-    /\ UNCHANGED <<ly, kind, alloc, y, yi, cs>>
+    /\ UNCHANGED <<ly, kind, alloc, y, yi, cs, fam>>
 
-Next == \/ \E c \in ScalarsNow : SetValScalar(c)
-        \/ \E k \in 1..3 : SetValArr(k)
-        \/ \E ix \in FlatIdx, c \in {Re(R(7)), <<R(7), R(-5)>>} : SetValIdx(ix, c)
-        \/ \E src \in {"y", "self"} : SetVec(src)
-        \/ \E src \in {"y", "self"} : IAdd(src) \/ ISub(src)
-        \/ \E c \in {Re(R(3)), <<R(3), R(1)>>} : IAddConst(c)
-        \/ \E c \in ScalarsNow : IMul(c)
-        \/ \E op \in {"iadd", "isub", "imul"}, ix \in FlatIdx, c \in {Re(R(-2)), Re(R(3)), <<R(1), R(2)>>} : OpIdx(op, ix, c)
-        \/ IMulVec
-        \/ \E c \in ScalarsNow, src \in {"y", "self"} : AddScalVec(c, src)
-        \/ \E v \in 1..NVars, via \in {"setitem", "view"}, whole \in {"scalar", "array"}, cplx \in BOOLEAN : SetName(v, via, whole, cplx)
-        \/ \E v \in 1..NVars, p \in AllVarIdx, cplx \in BOOLEAN : SetVarIdx(v, p[1], p[2], cplx)
-        \/ \E mode \in {"fwd", "rev"} : ScaleToNorm(mode)
-        \/ ScaleToPhys
-        \/ \E on \in BOOLEAN : CsSwitch(on)
+\* Three alphabets (variable fam, fixed along a behaviour).  The guard is placed inside every disjunct so that TLC sees one
+\* action per disjunct (the simulator draws an action first, then one of its successors).
+\* family "all": every action with every operand
+FamA == fam = "all"
+NextAll == \/ \E c \in ScalarsNow : FamA /\ SetValScalar(c)
+           \/ \E k \in 1..3 : FamA /\ SetValArr(k)
+           \/ \E ix \in FlatIdx, c \in {Re(R(7)), <<R(7), R(-5)>>} : FamA /\ SetValIdx(ix, c)
+           \/ \E src \in {"y", "self"} : FamA /\ SetVec(src)
+           \/ \E src \in {"y", "self"} : FamA /\ (IAdd(src) \/ ISub(src))
+           \/ \E c \in {Re(R(3)), <<R(3), R(1)>>} : FamA /\ IAddConst(c)
+           \/ \E c \in ScalarsNow : FamA /\ IMul(c)
+           \/ \E op \in {"iadd", "isub", "imul"}, ix \in FlatIdx, c \in {Re(R(-2)), Re(R(3)), <<R(1), R(2)>>} : FamA /\ OpIdx(op, ix, c)
+           \/ FamA /\ IMulVec
+           \/ \E c \in ScalarsNow, src \in {"y", "self"} : FamA /\ AddScalVec(c, src)
+           \/ \E v \in 1..NVars, via \in {"setitem", "view"}, whole \in {"scalar", "array"}, cplx \in BOOLEAN : FamA /\ SetName(v, via, whole, cplx)
+           \/ \E v \in 1..NVars, p \in AllVarIdx, cplx \in BOOLEAN : FamA /\ SetVarIdx(v, p[1], p[2], cplx)
+           \/ \E mode \in {"fwd", "rev"} : FamA /\ ScaleToNorm(mode)
+           \/ FamA /\ ScaleToPhys
+           \/ \E on \in BOOLEAN : FamA /\ CsSwitch(on)
 
-\* the sub-alphabet a solver uses around a scaling (every behaviour of NextSolver is a behaviour of Next); random
+\* the sub-alphabet a solver uses around a scaling (family "solver", a subset of the actions of NextAll); random
 \* histories over it cross the phys/norm boundary in both directions often
 InPhys == st = "phys"
 InNorm == st # "phys"
-NextSolver == \/ \E k \in 1..2 : InPhys /\ SetValArr(k)
-              \/ InPhys /\ IAdd("y")
-              \/ InPhys /\ ISub("y")
-              \/ \E c \in {Re(R(-2)), Re(R(3))} : InPhys /\ IMul(c)
-              \/ \E v \in 1..NVars : InPhys /\ SetName(v, "setitem", "array", FALSE)
-              \/ \E mode \in {"fwd", "rev"} : ScaleToNorm(mode)
-              \/ InNorm /\ IAdd("y")
-              \/ InNorm /\ IMul(Re(R(3)))
-              \/ InNorm /\ AddScalVec(Re(R(-2)), "y")
-              \/ InNorm /\ SetName(3, "view", "scalar", FALSE)
-              \/ ScaleToPhys
+FamS == fam = "solver"
+NextSolver == \/ \E k \in 1..2 : FamS /\ InPhys /\ SetValArr(k)
+              \/ FamS /\ InPhys /\ IAdd("y")
+              \/ FamS /\ InPhys /\ ISub("y")
+              \/ \E c \in {Re(R(-2)), Re(R(3))} : FamS /\ InPhys /\ IMul(c)
+              \/ \E v \in 1..NVars : FamS /\ InPhys /\ SetName(v, "setitem", "array", FALSE)
+              \/ \E mode \in {"fwd", "rev"} : FamS /\ ScaleToNorm(mode)
+              \/ FamS /\ InNorm /\ IAdd("y")
+              \/ FamS /\ InNorm /\ IMul(Re(R(3)))
+              \/ FamS /\ InNorm /\ AddScalVec(Re(R(-2)), "y")
+              \/ FamS /\ InNorm /\ SetName(3, "view", "scalar", FALSE)
+              \/ FamS /\ ScaleToPhys
 
-\* the sub-alphabet of a complex step (every behaviour of NextCS from InitCS is a behaviour of Next): the mode is switched
+\* the sub-alphabet of a complex step (families "cs", "cs2", a subset of the actions of NextAll): the mode is switched
 \* on and off, complex values are written and combined in the mode, real data are set / combined out of it while the
 \* imaginary plane of the last step is still in the storage
-NextCS == \/ \E on \in BOOLEAN : CsSwitch(on)
-          \/ cs /\ SetValArr(3)
-          \/ cs /\ \E c \in CScalars : SetValScalar(c) \/ IMul(c) \/ AddScalVec(c, "y")
-          \/ cs /\ \E ix \in FlatIdx : SetValIdx(ix, <<R(7), R(-5)>>) \/ OpIdx("imul", ix, <<R(1), R(2)>>) \/ OpIdx("iadd", ix, <<R(1), R(2)>>)
-          \/ cs /\ IAddConst(<<R(3), R(1)>>)
-          \/ cs /\ \E v \in 1..NVars, via \in {"setitem", "view"}, whole \in {"scalar", "array"} : SetName(v, via, whole, TRUE)
-          \/ cs /\ \E v \in 1..NVars, p \in AllVarIdx : SetVarIdx(v, p[1], p[2], TRUE)
-          \/ IMulVec
-          \/ \E src \in {"y", "self"} : IAdd(src) \/ ISub(src) \/ SetVec(src)
-          \/ \E k \in 1..2 : SetValArr(k)
-          \/ SetValScalar(Re(Zero))
-          \/ \E ix \in FlatIdx : SetValIdx(ix, Re(R(7))) \/ OpIdx("imul", ix, Re(R(3)))
-          \/ IMul(Re(R(3))) \/ IAddConst(Re(R(3))) \/ AddScalVec(Re(R(-2)), "y")
-          \/ \E v \in 1..NVars, via \in {"setitem", "view"}, whole \in {"scalar", "array"} : SetName(v, via, whole, FALSE)
-          \/ \E v \in 1..NVars, p \in AllVarIdx : SetVarIdx(v, p[1], p[2], FALSE)
-          \/ \E mode \in {"fwd", "rev"} : ScaleToNorm(mode)
-          \/ ScaleToPhys
+FamC == fam \in {"cs", "cs2"}
+NextCS == \/ \E on \in BOOLEAN : FamC /\ CsSwitch(on)
+          \/ FamC /\ cs /\ SetValArr(3)
+          \/ cs /\ \E c \in CScalars : FamC /\ (SetValScalar(c) \/ IMul(c) \/ AddScalVec(c, "y"))
+          \/ cs /\ \E ix \in FlatIdx : FamC /\ (SetValIdx(ix, <<R(7), R(-5)>>) \/ OpIdx("imul", ix, <<R(1), R(2)>>) \/ OpIdx("iadd", ix, <<R(1), R(2)>>))
+          \/ FamC /\ cs /\ IAddConst(<<R(3), R(1)>>)
+          \/ cs /\ \E v \in 1..NVars, via \in {"setitem", "view"}, whole \in {"scalar", "array"} : FamC /\ SetName(v, via, whole, TRUE)
+          \/ cs /\ \E v \in 1..NVars, p \in AllVarIdx : FamC /\ SetVarIdx(v, p[1], p[2], TRUE)
+          \/ FamC /\ IMulVec
+          \/ \E src \in {"y", "self"} : FamC /\ (IAdd(src) \/ ISub(src) \/ SetVec(src))
+          \/ \E k \in 1..2 : FamC /\ SetValArr(k)
+          \/ FamC /\ SetValScalar(Re(Zero))
+          \/ \E ix \in FlatIdx : FamC /\ (SetValIdx(ix, Re(R(7))) \/ OpIdx("imul", ix, Re(R(3))))
+          \/ FamC /\ (IMul(Re(R(3))) \/ IAddConst(Re(R(3))) \/ AddScalVec(Re(R(-2)), "y"))
+          \/ \E v \in 1..NVars, via \in {"setitem", "view"}, whole \in {"scalar", "array"} : FamC /\ SetName(v, via, whole, FALSE)
+          \/ \E v \in 1..NVars, p \in AllVarIdx : FamC /\ SetVarIdx(v, p[1], p[2], FALSE)
+          \/ \E mode \in {"fwd", "rev"} : FamC /\ ScaleToNorm(mode)
+          \/ FamC /\ ScaleToPhys
+
+Next == NextAll \/ NextSolver \/ NextCS
 
 Spec == Init /\ [][Next]_vars
 
